@@ -21,10 +21,10 @@ import (
 type SegVerdict int
 
 const (
-	SegDeliver SegVerdict = iota
-	SegHold               // keep queued until ReleaseHeld / link heal
-	SegResetBefore        // reset the connection instead of delivering
-	SegResetAfter         // deliver, then reset
+	SegDeliver     SegVerdict = iota
+	SegHold                   // keep queued until ReleaseHeld / link heal
+	SegResetBefore            // reset the connection instead of delivering
+	SegResetAfter             // deliver, then reset
 )
 
 type addr struct{ s string }
@@ -33,16 +33,16 @@ func (a addr) Network() string { return "tcp" }
 func (a addr) String() string  { return a.s }
 
 type pipe struct {
-	mu       sync.Mutex
-	cond     *sync.Cond
-	buf      []byte
-	eof      bool  // writer closed its side (FIN)
-	err      error // reset
-	rclosed  bool  // reader did CloseRead
-	lastAt   time.Duration
-	nseg     int
-	held     []heldSeg
-	holding  bool
+	mu      sync.Mutex
+	cond    *sync.Cond
+	buf     []byte
+	eof     bool  // writer closed its side (FIN)
+	err     error // reset
+	rclosed bool  // reader did CloseRead
+	lastAt  time.Duration
+	nseg    int
+	held    []heldSeg
+	holding bool
 }
 
 type heldSeg struct {
@@ -76,19 +76,19 @@ type TCPConn struct {
 
 func newPipe() *pipe { p := &pipe{}; p.cond = sync.NewCond(&p.mu); return p }
 
-func (c *TCPConn) Key() string        { return c.p.key }
-func (c *TCPConn) IsClient() bool     { return c.isClient }
-func (c *TCPConn) ClientNode() *Node  { return c.p.cNode }
-func (c *TCPConn) ServerNode() *Node  { return c.p.sNode }
+func (c *TCPConn) Key() string          { return c.p.key }
+func (c *TCPConn) IsClient() bool       { return c.isClient }
+func (c *TCPConn) ClientNode() *Node    { return c.p.cNode }
+func (c *TCPConn) ServerNode() *Node    { return c.p.sNode }
 func (c *TCPConn) LocalAddr() net.Addr  { return c.local }
 func (c *TCPConn) RemoteAddr() net.Addr { return c.remote }
 
-func (c *TCPConn) SetDeadline(t time.Time) error      { return nil }
-func (c *TCPConn) SetReadDeadline(t time.Time) error  { return nil }
-func (c *TCPConn) SetWriteDeadline(t time.Time) error { return nil }
-func (c *TCPConn) SetKeepAlive(bool) error            { return nil }
+func (c *TCPConn) SetDeadline(t time.Time) error          { return nil }
+func (c *TCPConn) SetReadDeadline(t time.Time) error      { return nil }
+func (c *TCPConn) SetWriteDeadline(t time.Time) error     { return nil }
+func (c *TCPConn) SetKeepAlive(bool) error                { return nil }
 func (c *TCPConn) SetKeepAlivePeriod(time.Duration) error { return nil }
-func (c *TCPConn) SetNoDelay(bool) error              { return nil }
+func (c *TCPConn) SetNoDelay(bool) error                  { return nil }
 
 var errReset = &net.OpError{Op: "read", Net: "tcp", Err: os.NewSyscallError("read", syscall.ECONNRESET)}
 var errClosed = errors.New("use of closed network connection")
@@ -501,7 +501,7 @@ func Dial(network, address string) (net.Conn, error) {
 	if down {
 		// SYN black-holed: the real dial would time out; jiva uses no dial timeout,
 		// so model it as a long stall followed by a timeout error.
-		time.Sleep(60 * time.Second)
+		Sleep(60 * time.Second)
 		return nil, &net.OpError{Op: "dial", Net: "tcp", Err: os.NewSyscallError("connect", syscall.ETIMEDOUT)}
 	}
 	k := w.Counter("dial:" + fromName + ">" + address)
@@ -551,6 +551,7 @@ func (w *World) KillNode(n *Node, why string) {
 	n.dead = true
 	n.Exited = true
 	n.ExitedBy = why
+	w.stopTimersLocked(n, false)
 	var ls []*TCPListener
 	for _, k := range sortedKeys(w.listeners) {
 		if l := w.listeners[k]; l.node == n {
